@@ -296,6 +296,7 @@ def run(report, p):
     if not sess_sites:
         raise AnalysisError("flatten: no commit of a session built on the collection history found")
 
+    include_rules(report, p, 'c08', ['R8.5', 'R8.6'], 'create writes a manifest / chain only in the histories in scope: the commit loop skips every history without records or referenced children, and only looks a parent up after deciding to write')
     include_rules(report, p, 'c08', ['R8.1'], 'create writes into the ascmhl folder of the history a path is routed to: component-wise routing keeps it inside the histories in scope')
     report.not_decided += [
         "mtime of the root directory changing because an ascmhl folder is created inside it (effect of a documented write)",
